@@ -50,6 +50,9 @@ VerOf(lab) == IF lab = 0 THEN 0 ELSE IF \E k \in DOMAIN vlab : vlab[k] = lab THE
 
 UCfg(u) == CHOOSE x \in Rng(hcfg.upds) : x.u = u
 SecureOfLabel(lab) == IF lab = 0 THEN FALSE ELSE UCfg(lab).secure
+\* the classes of client addresses the policy with this label refuses (its AllowedIPs list), as it was installed
+DenyOfLabel(lab) == IF lab = 0 THEN Rng(hcfg.deny0) ELSE Rng(UCfg(lab).deny)
+RefusesLabel(lab, k) == SecureOfLabel(lab) \/ k \in DenyOfLabel(lab)
 
 -----------------------------------------------------------------------------
 (* ideal level: observed state                                              *)
@@ -59,6 +62,7 @@ ObsInit == [lab |-> 0,                       \* label of the live policy (last u
             infl |-> {},                     \* admitted, hc.release not yet logged
             started |-> {}, done |-> {},
             c |-> [r \in Reqs |-> 0],
+            cls |-> [r \in Reqs |-> 0],     \* class of the client address the request came from
             active |-> {},                   \* updates between up.start and up.ret
             win |-> {},                      \* updates between up.waiting (drain observed) and up.limiter
             mid |-> [r \in Reqs |-> {}],     \* updates whose drain had been observed when r started
@@ -84,7 +88,7 @@ IdealReset ==
 IdealStep ==
   LET e == Cur IN
   CASE e.ev = "rq.start" ->
-         /\ o' = [o EXCEPT !.started = @ \cup {e.r}, !.c[e.r] = e.c, !.mid[e.r] = o.win,
+         /\ o' = [o EXCEPT !.started = @ \cup {e.r}, !.c[e.r] = e.c, !.cls[e.r] = e.cls, !.mid[e.r] = o.win,
                            !.ovl = IF o.active # {} THEN @ \cup {e.r} ELSE @,
                            \* two requests over TCP in flight together: the order of their rate-limit decisions is not observed
                            !.unk = @ \/ (e.c # 0 /\ \E q \in o.started \ o.done : o.c[q] # 0)]
@@ -118,9 +122,9 @@ IdealStep ==
              c == o.c[r]
              direct == c = 0
              \* ---- the reply is the one the admitted policy prescribes (direct requests)
-             judged == IF direct /\ e.kind = "ok" /\ o.adm[r] >= 0 /\ SecureOfLabel(o.adm[r])
+             judged == IF direct /\ e.kind = "ok" /\ o.adm[r] >= 0 /\ RefusesLabel(o.adm[r], o.cls[r])
                          THEN {"a request was served although the policy it was admitted under refuses it"}
-                       ELSE IF direct /\ e.kind = "denied" /\ o.adm[r] >= 0 /\ ~SecureOfLabel(o.adm[r])
+                       ELSE IF direct /\ e.kind = "denied" /\ o.adm[r] >= 0 /\ ~RefusesLabel(o.adm[r], o.cls[r])
                          THEN {"a request was refused although the policy it was admitted under allows it"}
                        ELSE {}
              \* ---- rate limiting (requests over a connection)
@@ -145,6 +149,18 @@ IdealStep ==
             /\ dev' = dev \cup {[l |-> l, hist |-> hcfg.hist, name |-> d] : d \in limDev}
             /\ stats' = [stats EXCEPT ![e.kind] = @ + 1]
             /\ UNCHANGED drift
+    \* what GetExportOptions reports (read after the caller has overwritten every option value it still owned):
+    \* it must be the policy that was installed last - label, address filter, rate limiting, limiter budget, TLS settings
+    [] e.ev = "opt.report" ->
+         LET want == [lab |-> o.lab, deny |-> DenyOfLabel(o.lab), secure |-> SecureOfLabel(o.lab),
+                      en |-> IF o.lab = 0 THEN FALSE ELSE UCfg(o.lab).limon, budget |-> hcfg.budget,
+                      tls |-> 100 + o.lab]       \* (each policy is installed with its own TLS cipher list)
+             got  == [lab |-> e.lab, deny |-> Rng(e.deny), secure |-> e.secure, en |-> e.en, budget |-> e.budget, tls |-> e.tls]
+         IN /\ bad' = bad \cup Tag(IF o.active = {} /\ got # want
+                                   THEN {"GetExportOptions reports a policy that was never installed (the policy in force changed without an update)"}
+                                   ELSE {})
+            /\ stats' = Bump("reports")
+            /\ UNCHANGED <<o, dev, drift>>
     [] e.ev = "rq.stuck" ->
          /\ bad' = bad \cup Tag({"[timed] a request that arrived while an update was draining was neither admitted nor given retry-later (it blocked)"})
          /\ UNCHANGED <<o, dev, drift, stats>>
@@ -208,7 +224,9 @@ IdealStep ==
 
 \* a history starts: every variable of PolicySwap is re-initialised from the reset line
 ImplReset ==
-  /\ cur' = [v |-> 0, secure |-> FALSE, en |-> FALSE]
+  /\ cur' = [v |-> 0, secure |-> FALSE, en |-> FALSE, deny |-> Rng(Cur.deny0)]
+  /\ acl0' = Rng(Cur.deny0)
+  /\ uacl' = [u \in Upds |-> IF \E x \in Rng(Cur.upds) : x.u = u THEN Rng((CHOOSE x \in Rng(Cur.upds) : x.u = u).deny) ELSE {}]
   /\ lim' = 0 /\ tokens' = [i \in 1..MaxVer |-> 0]
   /\ readers' = {} /\ wWait' = FALSE /\ wHeld' = FALSE /\ muHolder' = 0
   /\ req' = [r \in Reqs |-> ReqInit]
@@ -224,7 +242,7 @@ ImplReset ==
 
 ImplEvent ==
   LET e == Cur IN
-  CASE e.ev = "rq.start"   -> Call(e.r, e.c) /\ UNCHANGED <<vlab, acc, relLog>>
+  CASE e.ev = "rq.start"   -> Call(e.r, e.c, e.cls) /\ UNCHANGED <<vlab, acc, relLog>>
     [] e.ev = "hc.jukebox" -> req[e.r].ph = "jukebox" /\ UNCHANGED <<vars, vlab, acc, relLog>>
     [] e.ev = "hc.admit"   -> Snapshot(e.r) /\ LabelOf(cur.v) = e.lab /\ UNCHANGED <<vlab, acc, relLog>>
     [] e.ev = "hc.release" -> /\ req[e.r].ph = "releasing" /\ e.r \notin relLog
@@ -251,7 +269,7 @@ ImplEvent ==
     [] e.ev = "up.ret"     -> upd[e.u].ph = (IF e.ok THEN "returned" ELSE "failed") /\ UNCHANGED <<vars, vlab, acc, relLog>>
     [] e.ev = "cn.accept"  -> acc' = acc \cup {e.c} /\ UNCHANGED <<vars, vlab, relLog>>
     [] e.ev = "cl.start"   -> conn[e.c].ph = "open" /\ acc' = acc \ {e.c} /\ UNCHANGED <<vars, vlab, relLog>>
-    [] e.ev \in {"cn.dial", "cn.open", "race"} -> UNCHANGED <<vars, vlab, acc, relLog>>
+    [] e.ev \in {"cn.dial", "cn.open", "race", "opt.report"} -> UNCHANGED <<vars, vlab, acc, relLog>>
     [] OTHER -> FALSE      \* rq.stuck, up.stuck: no behaviour of the specification blocks there
 
 \* Steps of the code that leave no event.  To keep the search small they are scheduled canonically
@@ -262,7 +280,7 @@ ImplEvent ==
 \*         Deny, GoSend(deliver), TimerFire
 \*  search (any moment): Arrive (TryRLock succeeds or fails), UpdWait, UpdRelease, ConnOpen, Judge
 EagerReq(r) == \/ (r \in relLog /\ req[r].ph = "releasing")
-               \/ (req[r].ph = "admitted" /\ ~req[r].snap.secure)
+               \/ (req[r].ph = "admitted" /\ ~Refuses(req[r].snap, req[r].cls))
 EagerUpd(u) == upd[u].ph = "released"
 EagerEnabled == (\E r \in Reqs : EagerReq(r)) \/ (\E u \in Upds : EagerUpd(u))
 Eager ==
@@ -289,10 +307,10 @@ Search ==
 -----------------------------------------------------------------------------
 TInit == /\ Init
          /\ l = 1 /\ vlab = <<>> /\ acc = {} /\ relLog = {}
-         /\ hcfg = [hist |-> -1, budget |-> 0, upds |-> <<>>]
+         /\ hcfg = [hist |-> -1, budget |-> 0, upds |-> <<>>, deny0 |-> <<>>]
          /\ o = ObsInit
          /\ bad = {} /\ dev = {} /\ drift = {}
-         /\ stats = [lines |-> 0, hist |-> 0, admits |-> 0, ops |-> 0, swaps |-> 0, drains |-> 0, races |-> 0,
+         /\ stats = [lines |-> 0, hist |-> 0, admits |-> 0, ops |-> 0, swaps |-> 0, drains |-> 0, races |-> 0, reports |-> 0,
                      ok |-> 0, denied |-> 0, jukebox |-> 0, timeout |-> 0, limited |-> 0, closed |-> 0, bad |-> 0]
          /\ TLCSet(1, 1)
 
